@@ -424,9 +424,9 @@ def run(ctx):
                 ctx.count('not_compared', 'mutant at a lambda type (Micheline.match is abstract in the model)')
             elif not failing:
                 if model[3 * i] != ins:
-                    ctx.mismatch('unpack', {'type': t, 'bytes': b.hex()[:200], 'kind': kind}, ins[:300], model[3 * i][:300])
+                    ctx.mismatch('unpack', {'type': t, 'bytes': b.hex(), 'kind': kind}, ins[:4000], model[3 * i][:4000])
                 if model[3 * i + 1] != raw:
-                    ctx.mismatch('unpack-raw', {'type': t, 'bytes': b.hex()[:200], 'kind': kind}, raw[:300], model[3 * i + 1][:300])
+                    ctx.mismatch('unpack-raw', {'type': t, 'bytes': b.hex(), 'kind': kind}, raw[:4000], model[3 * i + 1][:4000])
 
 
 def _prim_of_tag():
